@@ -410,6 +410,13 @@ class CallListerVisitor(ast.NodeVisitor):
         path = self.attribute_path(node)
         return any(path[:n] in self.stored_attrs for n in range(2, len(path) + 1))
 
+    def resolve_argument(self, node):
+        # helper(self.callback, *args): an attribute this function assigns
+        # holds something else by the time the call is made
+        if isinstance(node, ast.Attribute) and self.is_stored_attribute(node):
+            return Unknown(node)
+        return self.resolve_name(node)
+
     def has_hide_starargs(self, found, original):
         if found:
             if found == original:
@@ -434,12 +441,12 @@ class CallListerVisitor(ast.NodeVisitor):
         for arg in node.args:
             if isinstance(arg, Starred):
                 break
-            args.append(self.resolve_name(arg))
+            args.append(self.resolve_argument(arg))
         # func(*args, value): value lands behind whatever *args holds
         trailing = any(
             not isinstance(arg, Starred) for arg in node.args[len(args):])
         kwargs = dict(
-            (kw.arg, self.resolve_name(kw.value))
+            (kw.arg, self.resolve_argument(kw.value))
             for kw in node.keywords if kw.arg is not None)
         starargs = get_starargs(node)
         starkwargs = get_kwargs(node)
